@@ -155,19 +155,27 @@ fn unsound(a: &Unit, b: &Unit, u: &Unit, op: char) -> Option<String> {
         Some(d) if std::ptr::eq(*d, u) => {}
         _ => return Some(format!("result `{}` is not the database unit of that name", u.name())),
     }
-    let (da, db) = match (&a.dimensions, &b.dimensions) {
-        (Some(x), Some(y)) => (dims16(x), dims16(y)),
-        // a dimension-less operand has no exponent vector: nothing to compare (the model says Err; a change
-        // shows up in the correspondence)
+    // a unit of the quantity `dimensionless` without an exponent vector has every exponent zero; for the other units
+    // without a vector (currency, bytes ...) there is nothing to compare (the model says Err; a change shows up in the
+    // correspondence)
+    let dims_of = |x: &Unit| -> Option<[i16; 7]> {
+        match &x.dimensions {
+            Some(d) => Some(dims16(d)),
+            None if x.quantity.as_deref() == Some("dimensionless") => Some([0i16; 7]),
+            None => None,
+        }
+    };
+    let (da, db) = match (dims_of(a), dims_of(b)) {
+        (Some(x), Some(y)) => (x, y),
         _ => return None,
     };
     let mut want = [0i16; 7];
     for i in 0..7 {
         want[i] = if op == '*' { da[i] + db[i] } else { da[i] - db[i] };
     }
-    match &u.dimensions {
-        Some(du) if dims16(du) == want => {}
-        other => return Some(format!("dimensions of `{}` are {:?}, expected exponents {:?}", u.name(), other, want)),
+    match dims_of(u) {
+        Some(du) if du == want => {}
+        _ => return Some(format!("dimensions of `{}` are {:?}, expected exponents {:?}", u.name(), u.dimensions, want)),
     }
     let scale = if op == '*' { a.scale * b.scale } else { a.scale / b.scale };
     if !approx(u.scale, scale) {
